@@ -1184,10 +1184,23 @@ class Engine:
                         outs += self.exec(q2, self._fr(q2, fr), br)
                         continue
                     q3 = q2.clone()
+                    n2, n3 = len(q2.events), len(q3.events)
+                    t_out, e_out = None, None
                     if self.assume(q2, c, s.get("loc")):
-                        outs += self.exec(q2, self._fr(q2, fr), s["then"])
+                        ev_t = q2.events[n2:]
+                        t_out = self.exec(q2, self._fr(q2, fr), s["then"])
                     if self.assume(q3, neg(c), s.get("loc")):
-                        outs += self.exec(q3, self._fr(q3, fr), s.get("else"))
+                        ev_e = q3.events[n3:]
+                        e_out = self.exec(q3, self._fr(q3, fr), s.get("else"))
+                    # the surviving side of an abort check is marked (the other side never returns)
+                    if t_out is not None and e_out is not None:
+                        if t_out and all(x.status == "abort" for x in t_out):
+                            for ev_ in ev_e:
+                                ev_.extra["abort_check"] = True
+                        if e_out and all(x.status == "abort" for x in e_out):
+                            for ev_ in ev_t:
+                                ev_.extra["abort_check"] = True
+                    outs += (t_out or []) + (e_out or [])
                     self.npaths += 1
             if self.npaths > self.max_paths:
                 raise Inconclusive("path budget exceeded")
@@ -1354,11 +1367,12 @@ class Engine:
                 if lv is not None:
                     q.mem[lv] = ("havoc", next(self.uid), lv[2] if len(lv) > 2 else "v")
             q.loopdepth += 1
-            self.emit(q, "LOOP_BEGIN", loc=s.get("loc"))
+            self.emit(q, "LOOP_BEGIN", loc=s.get("loc"), extra={"range": s.get("range") is not None})
             iters = [q]
             if kind == "forrange":
                 iters = []
                 for q2, r in self.ev_lv(q, f, s["range"]):
+                    self.emit(q2, "RANGE", r, loc=s.get("loc"))
                     elem = ("elem", next(self.uid), r)
                     ff = self._fr(q2, fr)
                     vt = s.get("vart") or {}
